@@ -246,7 +246,7 @@ def run(ctx):
                 continue
             check_text(ctx, E, "".join(tup), with_endpoints=(n <= 4))
             ctx.count("exhaustive_texts")
-    for i in ctx.cases(50000, 1500000):
+    for i in ctx.cases(50000, 1000000):
         rng = ctx.case_rng(i)
         t = gen_text(rng)
         check_text(ctx, E, t, with_endpoints=(i % 4 == 0))
